@@ -13,9 +13,10 @@ for pid, d in sorted(S.CHECKS.items()):
         "evidence_file": "/verif/evidence/%s.json" % pid,
         "replay_cmd_template": "./check %s --replay {path}" % pid,
         "engine": d["engine"],
-        "level_claimed": {"category": d.get("category", "model_checking"), "text": d["text"], "design_ref": "DESIGN.md section 2, " + pid},
+        "level_claimed": {"category": d.get("category", "model_checking"), "text": d["text"] + S.EXTENSIONS_TEXT,
+                          "design_ref": "DESIGN.md section 2, " + pid + "; section 6.3 for the families added since"},
         "level_note": d["note"],
-        "technique": d["technique"],
+        "technique": d["technique"] + S.EXTENSIONS_TECHNIQUE,
     })
 m = {
     "version": 1,
